@@ -106,6 +106,10 @@ structure Source where
   reqTables : Cfg → ReqTables
   respHasBody : String → Option Bool
   statusSerializeError : Nat
+  tables : String → Option (List (String × Nat))
+  controlByte : Nat → Option Nat      -- byte → variant index
+  controlNames : List (String × Nat)
+  credProtect : Nat → Option Nat
   opCase : Nat → String          -- `Operation::try_from(b)` then `into_u8`
   vopCase : Nat → String         -- `VendorOperation::try_from(b)`
 
@@ -142,13 +146,23 @@ def specVopCase (b : Nat) : String := if 0x40 ≤ b ∧ b ≤ 0x7F then s!"ok {b
 def genSource : Source :=
   { reqRoles := Gen.reqRoles, respRoles := Gen.respRoles, adExtRoles := Gen.adExtRoles,
     reqTables := Gen.reqTables, respHasBody := fun v => Gen.respSwitch.lookup v,
-    statusSerializeError := Gen.statusSerializeError, opCase := genOpCase, vopCase := genVopCase }
+    statusSerializeError := Gen.statusSerializeError, opCase := genOpCase, vopCase := genVopCase,
+    tables := fun n => if n = "status" then some Gen.statusCodes
+                       else if n = "Permissions" then some Gen.flagsPermissions
+                       else if n = "AuthenticatorDataFlags" then some Gen.flagsAuthenticatorDataFlags else none,
+    controlByte := firstMatch Gen.controlByteTryFrom, controlNames := Gen.controlBytes,
+    credProtect := firstMatch Gen.credProtectTryFrom }
 
 def specSource : Source :=
   { reqRoles := Spec.reqRoles, respRoles := Spec.respRoles, adExtRoles := Spec.adExtRoles,
     reqTables := specReqTables,
     respHasBody := fun v => Spec.respHasBody.lookup v,
-    statusSerializeError := Spec.statusOther, opCase := specOpCase, vopCase := specVopCase }
+    statusSerializeError := Spec.statusOther, opCase := specOpCase, vopCase := specVopCase,
+    tables := fun n => if n = "status" then some Spec.statusCodes
+                       else if n = "Permissions" then some Spec.permissions
+                       else if n = "AuthenticatorDataFlags" then some Spec.authDataFlags else none,
+    controlByte := Spec.controlByteOf, controlNames := Spec.controlBytes,
+    credProtect := Spec.credProtectOf }
 
 def parseCfg (s : String) : Option Cfg :=
   match s.toList with
@@ -156,18 +170,6 @@ def parseCfg (s : String) : Option Cfg :=
     if (a = '0' ∨ a = '1') ∧ (b = '0' ∨ b = '1') ∧ (c = '0' ∨ c = '1') then
       some ⟨a = '1', b = '1', c = '1'⟩ else none
   | _ => none
-
-def Ty.child : Ty → Nat → Option Ty
-  | .vec _ t, 0 => some t
-  | .filtered _ _ _ _ e, 0 => some e
-  | .indexed _ fs, i => (fs.nth i).map (·.2)
-  | .text fs, i => (fs.nth i).map (·.2)
-  | .untagged fs, i => (fs.nth i).map (·.2)
-  | _, _ => none
-
-def walk : Ty → List Nat → Option Ty
-  | t, [] => some t
-  | t, i :: rest => match Ty.child t i with | some c => walk c rest | none => none
 
 /-- type reference `req:MakeCredential/6/0` = role, then child indices -/
 def tyRef (src : Source) (c : Cfg) (ref : String) : Option Ty := do
@@ -179,7 +181,7 @@ def tyRef (src : Source) (c : Cfg) (ref : String) : Option Ty := do
     | ["resp", v] => (src.respRoles c).lookup v
     | ["adext", v] => (src.adExtRoles c).lookup v
     | _ => none
-  walk root idxs
+  walkTy root idxs
 
 def showErr : DErr → String
   | .missing => "err missing"
@@ -234,6 +236,24 @@ def handle (src : Source) (line : String) : String :=
            | .panic => "panic"
            | .ub => "panic"))
      | _, _, _, _ => "bad-case")
+  | ["tbl", name] =>
+    (match src.tables name with
+     | some t => ",".intercalate (t.map fun (n, v) => s!"{n}={v}")
+     | none => "bad-case")
+  | ["cb", b] =>
+    (match b.toNat? with
+     | some b =>
+       (match src.controlByte b with
+        | some i => (match src.controlNames[i]? with | some (n, v) => s!"ok {n} {v}" | none => "panic")
+        | none => "err")
+     | none => "bad-case")
+  | ["cpp", b] =>
+    (match b.toNat? with
+     | some b =>
+       (match src.credProtect b with
+        | some i => s!"ok {["Optional", "OptionalWithCredentialIdList", "Required"].getD i "?"} {[1, 2, 3].getD i 0}"
+        | none => "err 2")
+     | none => "bad-case")
   | ["op", b] =>
     (match b.toNat? with
      | some b => src.opCase b
